@@ -23,8 +23,8 @@ theorem runSteps_not_spin {σ ι} (step : σ → ι → Res σ) (h : ∀ s i, st
     | fault f => simp
     | spin => exact absurd hs (h s i)
 
-theorem logStep_not_spin (fx thr st i) : logStep fx thr st i ≠ .spin := by
-  cases i <;> simp only [logStep] <;> (try split) <;> first | exact liftE_ne_spin _ | simp
+theorem logStep_not_spin (fx : Fixes) (h : fx.influxNewline = true) (thr st i) : logStep fx thr st i ≠ .spin := by
+  cases i <;> simp only [logStep, h] <;> (try split) <;> first | exact liftE_ne_spin _ | simp_all
 
 theorem onSpan_not_spin (fx thr st c) : onSpan fx thr st c ≠ .spin := by
   unfold onSpan
@@ -371,6 +371,9 @@ theorem logStep_good (fx : Fixes) (thr : Nat) (st : LogSt) (i : LogItem) (st' : 
     · cases h; exact hst
     · cases p <;> simp [deref, liftE, bind, Except.bind, pure, Except.pure] at h
       subst h; exact hst
+  | danglingEscape =>
+    simp only [logStep] at h
+    split at h <;> cases h
 
 def Run.good (r : Run) : Prop :=
   r.sent.all Portion.good = true ∧ (r.ending = .done → r.final.all Portion.good = true)
@@ -657,6 +660,7 @@ theorem influxItems_wf (ls : List InfluxLine) : (influxItems ls).all LogItem.wf 
   obtain ⟨l, _, hl⟩ := hi
   cases l with
   | bad => simp at hl; subst hl; rfl
+  | danglingEscape => simp at hl; subst hl; rfl
   | point m others =>
     cases m with
     | none =>
@@ -749,6 +753,7 @@ theorem logStep_ok_of_safe (fx : Fixes) (hfx : fx.emptyFill = true) (thr : Nat) 
   | error code => simp [LogItem.safe] at hi
   | assertStr b => simp [LogItem.safe] at hi
   | derefGetter p => simp [LogItem.safe] at hi
+  | danglingEscape => simp [LogItem.safe] at hi
 
 theorem promSeries_safe (n : Nat) : ∀ (left points pending : Nat),
     ∀ i ∈ promSeries n left points pending, i.safe = true
@@ -788,14 +793,14 @@ theorem promRun_done (fx : Fixes) (hfx : fx.emptyFill = true) (thr : Nat) (ns : 
 
 /-! ### request level -/
 
-theorem plan_run_not_spin (fx : Fixes) (h : fx.nsGuard = true) (thr : Nat) (it : Items) (run : Run)
+theorem plan_run_not_spin (fx : Fixes) (h : fx.nsGuard = true) (h2 : fx.influxNewline = true) (thr : Nat) (it : Items) (run : Run)
     (hp : it.plan fx thr = .run run) : run.ending ≠ .spin := by
   cases it with
   | reject c => simp [Items.plan] at hp
   | preParse c => simp [Items.plan] at hp
   | logs is =>
     simp only [Items.plan, Plan.run.injEq] at hp; subst hp
-    exact runSteps_not_spin _ (logStep_not_spin fx thr) _ _
+    exact runSteps_not_spin _ (logStep_not_spin fx h2 thr) _ _
   | spans is =>
     simp only [Items.plan, Plan.run.injEq] at hp; subst hp
     exact runSteps_not_spin _ (spanStep_not_spin fx thr) _ _
@@ -804,7 +809,8 @@ theorem plan_run_not_spin (fx : Fixes) (h : fx.nsGuard = true) (thr : Nat) (it :
     exact runSteps_not_spin _ (profStep_not_spin fx h thr) _ _
 
 /-- with the `ns` guard and the recover in `doPush`, every request is answered with a status -/
-theorem ingestFull_status (fx : Fixes) (hns : fx.nsGuard = true) (hrec : fx.pushRecover = true)
+theorem ingestFull_status (fx : Fixes) (hns : fx.nsGuard = true) (hinf : fx.influxNewline = true)
+    (hrec : fx.pushRecover = true)
     (thr : Nat) (env : Env) (r : Route) (d : Doc) (cols : Cols) :
     ∃ n, (ingestFull fx thr env r d cols).1 = .status n := by
   unfold ingestFull
@@ -818,7 +824,7 @@ theorem ingestFull_status (fx : Fixes) (hns : fx.nsGuard = true) (hrec : fx.push
     | run run =>
       apply doParse_status fx hrec env _ _ _ cols [] (by simp)
       have := parserGoroutine_closes run.sent run.final run.ending
-        (plan_run_not_spin fx hns thr _ run hp)
+        (plan_run_not_spin fx hns hinf thr _ run hp)
       simp only [Run.trace, this]
       simp
   cases d.enc with
